@@ -336,7 +336,15 @@ def generate(tier, rng):
     cases += _random(rng, 400 if quick else 4000, 2000)
     for c in cases:
         assert valid_case(c), c
-    return cases
+    # one 'get' case in three is asked of a reader object that has already answered other queries (a read with
+    # a channel selector, a derived column view, a plain read): earlier reads must not change later answers
+    # (seeded change C01-m1: the clone made for `reader[item, cols]` shared its op list with the reader)
+    out = []
+    for k, c in enumerate(cases):
+        if c['kind'] == 'get' and k % 3 == 1 and not c['inp']['cfg'].get('used'):
+            c = {'kind': c['kind'], 'inp': dict(c['inp'], cfg=dict(c['inp']['cfg'], used=True))}
+        out.append(c)
+    return out
 
 
 # ---- implementation side ------------------------------------------------------------------------
@@ -467,6 +475,12 @@ def run_case(case):
                     float(r.duration).hex(), [int(x) for x in r.part_bounds], info.get('fsizes'), rate.hex(),
                     int(round(600.0 * rate)), len(shape))
         it = py_item(i['item'], cfg['as'])
+        if cfg.get('used'):
+            nch = int(r.n_channels)
+            r[0, [nch - 1]]
+            r[:, [0]]
+            r[-1:, ::-1]
+            r[0]
         if i['cols'] is None:
             out = r[it]
         else:
@@ -575,6 +589,7 @@ def dist(case, obs):
         out.append('crash=' + obs[1])
     if case['kind'] == 'get':
         it = i['item']
+        out.append('reader=' + ('already-used' if cfg.get('used') else 'fresh'))
         out.append('item=' + ({'list': 'list', 'array': 'ndarray'}[cfg['as']] if it[0] == 'list' else
                               'np.int64' if it[0] == 'int' and cfg['as'] == 'array' else it[0]))
         cols = i['cols']
